@@ -97,9 +97,51 @@ def check_dfs_operator(ctx, lib, rule):
         )
 
 
+def check_query_keeps_order(ctx, fb):
+    """The answers of a query body reach the ResultIterator through `reify(__query__)`, joined to the
+    body by a conjunction.  For the body's answer order (which this property fixes for `dfs { .. }`
+    bodies) to be the *observed* order, that join must be order-preserving: a depth-first bind (the
+    continuation of answer i completes before answer i+1 is continued), or a continuation that is a
+    single engine step (it cannot be overtaken).  An interleaving bind with a multi-step continuation
+    lets the reification of a later, smaller answer finish before that of an earlier, larger one."""
+    import macrolib
+    import tmpl
+
+    R = "C05.K12.query-keeps-order"
+    S = macrolib.load_sem(ctx, fb)
+    if S is None:
+        return
+    a = macrolib.single_alt(ctx, S, R, "Query")
+    if a is None:
+        return
+    # the conjunction that holds reify(..): which builder, and is the body an element before it?
+    joins = []
+    for n in tmpl.walk(a.tree):
+        if isinstance(n, tuple) and n and n[0] == "call" and n[1][0] == "path" and n[2] and isinstance(n[2][0], tuple) and n[2][0][0] == "array":
+            elems = n[2][0][1]
+            if any(isinstance(e, tuple) and e and e[0] == "call" and e[1][0] == "path" and e[1][1].split("::")[-1] == "reify" for e in elems):
+                joins.append((n[1][1], elems))
+    if not ctx.expect(len(joins) == 1, R, "Query|reify-join", a.site, "expected one conjunction holding reify(__query__) in the query template, found %d" % len(joins)):
+        return
+    builder, elems = joins[0]
+    dfs_join = "DFSConj" in builder
+    # is reify a single-step goal?
+    lib = fb.lib
+    fn = streams.getfn(ctx, lib, R, "crate::state::reification::reify")
+    single_step = False
+    if fn:
+        t = sym.Evaluator(lib, inline=lambda p, f: False, extra_identity=streams.GOAL_CAST | {"crate::Upcast::to_super"}).fn_term(fn)
+        r = tables.result(t)
+        conj = [c for c in sym.calls(r) if c[1].split("::")[-1] in ("from_array", "from_vec", "from_conjunctions", "new") and "Conj" in c[1]]
+        single_step = not conj and r[0] == "call" and suffix_match(r[1], "FnGoal::new")
+    ctx.expect(dfs_join or single_step, R, "Query|reify-joined-by-interleaving-bind", a.site, "the query joins its body with reify(__query__) through the interleaving conjunction `%s` while reify is a multi-step goal (a conjunction of the constraint-enforcing goals and the renaming step): reification of a later answer can finish before that of an earlier one, so the order in which a `dfs { .. }` body produces its answers is not the order in which the iterator returns them" % builder)
+
+
 def run(ctx, fb, cfg):
     lib = fb.lib
     R = "C05."
+    if cfg == "lib-default":
+        check_query_keeps_order(ctx, fb)
     streams.check_mplus(ctx, lib, DFS, R + "K3.merge-dfs")
     streams.check_bind(ctx, lib, DFS, R + "K3.bind-dfs")
     streams.check_conj_solve(ctx, lib, DFS, R + "K3.conj-dfs", "<crate::operator::conj::DFSConj as crate::solver::Solve>::solve")
@@ -117,6 +159,15 @@ def run(ctx, fb, cfg):
     check_from_conjunctions(ctx, lib, R + "K6.builder", "crate::operator::disj::DFSDisj::from_conjunctions", "DFSGoal::Fail", "DFSDisj::new", "DFSConj::from_array")
     check_dfs_operator(ctx, lib, R + "K5.dfs-operator")
     streams.census(ctx, lib, R + "K1.construction-sites", ALLOWED_SITES, FLOORS)
+    # clause / conjunct order is established by the builders the macros call (project / for bodies,
+    # cond / match arms): total order-preserving folds (rules shared with C13 / C14)
+    import C13
+    import C14
+
+    for f in ("from_array", "from_vec"):
+        C14.check_fold(ctx, lib, R + "K6.builder", "crate::operator::conj::InferredConj::" + f, "InferredConj::new")
+    C14.check_fold(ctx, lib, R + "K6.builder", "crate::operator::conj::InferredConj::from_conjunctions", "InferredConj::new", inner="InferredConj::from_array")
+    C13.check_conde_builder(ctx, lib, R + "K6.conde-builder")
 
 
 def check_from_conjunctions(ctx, lib, rule, fn_suffix, unit, new, inner):
